@@ -12,6 +12,8 @@ VERIF = extract.VERIF
 VERIF_FAIL = [
     ("postcondition not satisfied", "post"),
     ("precondition not satisfied", "pre"),
+    ("index in bounds", "index"),
+    ("precondition not met", "pre"),
     ("assertion failed", "assert"),
     ("possible arithmetic underflow/overflow", "arith"),
     ("possible division by zero", "div0"),
@@ -311,8 +313,9 @@ def run_unit(name, repo=None, rlimit=None, outdir=None, extra_args=(), solver=No
                     need.update(f["qual"] for f in unit.fns)
         split_fail, split_rl = _split_run(unit, path, outdir, need, rlimit)
         if split_fail is not None:
+            covered = set(_SPLIT_COVERED)
             hard = [h for h in hard if not h.startswith("rlimit")]
-            res.failures = [ob for ob in res.failures if not (ob["kind"] == "post" and ob["fn"] in need)] + split_fail
+            res.failures = [ob for ob in res.failures if not (ob["kind"] == "post" and ob["fn"] in covered)] + split_fail
             hard.extend(split_rl)
     if hard:
         res.status, res.reason = "inconclusive", "; ".join(hard[:4])
@@ -334,15 +337,20 @@ def _clause_spans(unit, f):
     return spans
 
 
+_SPLIT_COVERED = []
+
+
 def _split_run(unit, path, outdir, fn_quals, rlimit, single_ok=False):
     import concurrent.futures as cf
     jobs = []
+    del _SPLIT_COVERED[:]
     for f in unit.fns:
         if f["qual"] not in fn_quals:
             continue
         spans = _clause_spans(unit, f)
         if len(spans) < 2 and not (single_ok and spans):
             continue
+        _SPLIT_COVERED.append(f["qual"])
         for k, (label, tags, a, b, unless) in enumerate(spans):
             lines = list(unit.out_lines)
             for j, (_, _, a2, b2, _u) in enumerate(spans):
